@@ -426,6 +426,9 @@ func (in *inliner) flush() {
 		}
 		name, _ := filepath.Abs(p.Fset.File(f.Pos()).Name())
 		in.res.overlay[name] = buf.Bytes()
+		if d := os.Getenv("LZ_DUMP_NORM"); d != "" {
+			os.WriteFile(filepath.Join(d, filepath.Base(name)), buf.Bytes(), 0o644)
+		}
 	}
 }
 
@@ -443,6 +446,9 @@ func (in *inliner) expandRound() bool {
 			in.dirty[f] = true
 			any = true
 		} else if in.promoteLocalCopies(f) {
+			in.dirty[f] = true
+			any = true
+		} else if in.scalarizeLocals(f) {
 			in.dirty[f] = true
 			any = true
 		}
@@ -975,6 +981,10 @@ func (in *inliner) site(file *ast.File, encl *ast.FuncDecl, st ast.Stmt) []ast.S
 					useAll(nm.Name + suffix)
 					ai++
 					continue
+				} else if in.concreteBindable(fd, nm, pt, tv.Type) {
+					// an interface parameter that the helper only calls methods on and hands on to
+					// parameters of the same interface type: binding the concrete argument selects the
+					// very methods the interface value would dispatch to
 				} else {
 					return skip("argument type differs from parameter type")
 				}
@@ -1304,4 +1314,55 @@ func clearPos(stmts []ast.Stmt) {
 	for _, s := range stmts {
 		zero(reflect.ValueOf(s), 0)
 	}
+}
+
+// concreteBindable: parameter nm of helper fd has interface type pt, the argument has the concrete type at
+// (which implements pt), and every use of the parameter in the helper's body is the receiver of a method call
+// or a direct argument for a parameter of exactly the type pt.
+func (in *inliner) concreteBindable(fd *ast.FuncDecl, nm *ast.Ident, pt, at types.Type) bool {
+	if _, isI := pt.Underlying().(*types.Interface); !isI || nm.Name == "_" {
+		return false
+	}
+	if _, isI := at.Underlying().(*types.Interface); isI || !types.AssignableTo(at, pt) {
+		return false
+	}
+	info := in.pkg.TypesInfo
+	obj := info.Defs[nm]
+	if obj == nil {
+		return false
+	}
+	allowed := map[*ast.Ident]bool{}
+	ast.Inspect(fd.Body, func(n ast.Node) bool {
+		call, isCall := n.(*ast.CallExpr)
+		if !isCall {
+			return true
+		}
+		if sel, isSel := call.Fun.(*ast.SelectorExpr); isSel {
+			if id, isId := sel.X.(*ast.Ident); isId && info.Uses[id] == obj {
+				if s := info.Selections[sel]; s != nil && s.Kind() == types.MethodVal {
+					allowed[id] = true
+				}
+			}
+		}
+		var sig *types.Signature
+		if tv, has := info.Types[call.Fun]; has && !tv.IsType() && !tv.IsBuiltin() && tv.Type != nil {
+			sig, _ = tv.Type.Underlying().(*types.Signature)
+		}
+		if sig != nil && !sig.Variadic() && sig.TypeParams() == nil && sig.Params().Len() == len(call.Args) {
+			for i, a := range call.Args {
+				if id, isId := a.(*ast.Ident); isId && info.Uses[id] == obj && types.Identical(sig.Params().At(i).Type(), pt) {
+					allowed[id] = true
+				}
+			}
+		}
+		return true
+	})
+	ok := true
+	ast.Inspect(fd.Body, func(n ast.Node) bool {
+		if id, isId := n.(*ast.Ident); isId && info.Uses[id] == obj && !allowed[id] {
+			ok = false
+		}
+		return true
+	})
+	return ok
 }
